@@ -28,7 +28,7 @@ CHECKS = {
         technique="contracts as closed obligations on the objects the real constructors build, decided exactly by the ground GF(2) kernel (complete enumeration); distance clause also proved symbolically through the real forward() for small k",
     ),
     "C02": dict(
-        text="t-error correction (decoded == m and reported errors == e for r = m.G xor e, wt(e) <= t, t from the ADVERTISED distance) is discharged for ALL messages and ALL error patterns at once - symbolic m and e with a cardinality constraint - for the syndrome-lookup decoder (redundancy <= 4 quick / 6 thorough), the brute-force ML decoder (k <= 4 / 6), the Hamming single-error inverse and the Reed-Muller nearest-codeword inverse, by path-complete symbolic execution of the real forward() (per-row loops, .item(), dict lookup, torch.equal, argmin). The minimum-distance clause of the complete decoders is discharged for EVERY received word (n <= 12). The syndrome table is checked as a ground obligation (complete, every entry a coset leader). Berlekamp-Massey: for the length-7 BCH codes (thorough: also (15,.) codes up to 20000 paths) the decoder is executed path-completely on a symbolic message and error pattern (it concretises every bit, so every feasible path = every (codeword, pattern) pair runs on the real code); larger codes and the Reed-Muller majority decoder are covered by the bounded stand-in only and are not counted as proved. Received words are also given as uint8/int64 tensors (integer-dtype variants), and as multi-block (..., m*n) layouts.",
+        text="t-error correction (decoded == m and reported errors == e for r = m.G xor e, wt(e) <= t, t from the ADVERTISED distance) is discharged for ALL messages and ALL error patterns at once - symbolic m and e with a cardinality constraint - for the syndrome-lookup decoder (redundancy <= 4 quick / 6 thorough), the brute-force ML decoder (k <= 4 / 6), the Hamming single-error inverse and the Reed-Muller nearest-codeword inverse, by path-complete symbolic execution of the real forward() (per-row loops, .item(), dict lookup, torch.equal, argmin). The minimum-distance clause of the complete decoders is discharged for EVERY received word (n <= 12). The syndrome table is checked as a ground obligation (complete, every entry a coset leader). Berlekamp-Massey: for the length-7 BCH codes (thorough: also (15,.) codes up to 4000 paths) the decoder is executed path-completely on a symbolic message and error pattern (it concretises every bit, so every feasible path = every (codeword, pattern) pair runs on the real code); larger codes and the Reed-Muller majority decoder are covered by the bounded stand-in only and are not counted as proved. Received words are also given as uint8/int64 tensors (integer-dtype variants), and as multi-block (..., m*n) layouts.",
         note="Trusted: C01's contract (received words are formed from the published G), vk engine, z3. Out of reach of proof: Berlekamp-Massey/Chien (full concretisation of the word; deep algebraic theorem) and the majority-logic decoder. Known finding: RS-style codes advertise t beyond their true distance.",
         design="7/C02",
         technique=E2 + "; bounded native stand-in for Berlekamp-Massey and majority-logic decoding",
